@@ -11,7 +11,9 @@
    is the obligation that fails when somebody edits one of the ~85 len()
    methods — and (b) for []EDNS0 / []SVCBKeyValue values the length the value's
    own len() reports (third component of V_pairs, filled in by the harness from
-   the Go len()) is at least the length of what its pack() returns. *)
+   the Go len()) is at least the length of what its pack() returns.  For the
+   option / value types the library defines, (b) is PROVED from the Go struct
+   fields: last section of this file (Model/OptVal.v). *)
 From Dns Require Import Gen.Layouts Gen.Lens Gen.Registry.
 From Dns Require Import Model.Msg Proofs.LenFieldProofs Proofs.LenRRProofs Proofs.LenMsgProofs Proofs.LenRoomProofs
   Proofs.LenCompressProofs Proofs.LenCompressMsgProofs Proofs.LenWitnessProofs.
@@ -304,3 +306,67 @@ Theorem msg_len_exact_for_plain_messages_with_compression :
     lenN w = msg_len m.
 Proof. exact msg_len_exact_compressed. Qed.
 Print Assumptions msg_len_exact_for_plain_messages_with_compression.
+
+(* ---------------- option and parameter VALUES at Go struct level ---------------- *)
+(* Clause (b) of [rr_okb] is a hypothesis about (code, packed value, reported
+   length) triples.  For the option / parameter types the library defines it is
+   a theorem: Model/OptVal.v has every EDNS0_* type of edns.go and every SVCB*
+   value type of svcb.go with its Go fields (hex text for Nsid / Cookie with
+   hex.DecodeString, net.IP of any length with To4 and Mask, the SUBNET family /
+   netmask / address branches, Fqdn + PackDomainName for REPORTING), [opt_pack] /
+   [svcb_pack] follow pack() branch by branch, [svcb_len] is the value's len() and
+   [opt_len] what OPT.len adds (it calls pack() and takes the length of the
+   result: EDNS0 options have no len() of their own).  Tied to the code by the
+   harness cases optval / svcbval on every run.
+   Non-vacuity: ex_opt_hypotheses, ex_svcb_hypotheses, ex_optval_errors in
+   Proofs/OptValProofs.v. *)
+From Dns Require Import Model.OptVal Proofs.OptValProofs.
+
+Theorem option_len_covers_option_pack :
+  forall (v : optval) (b : bytes), opt_pack v = Ok b -> lenN b <= opt_len v.
+Proof. exact opt_len_ge_pack. Qed.
+Print Assumptions option_len_covers_option_pack.
+
+Theorem option_len_is_exact :
+  forall (v : optval) (b : bytes), opt_pack v = Ok b -> opt_len v = lenN b.
+Proof. exact opt_len_eq_pack. Qed.
+Print Assumptions option_len_is_exact.
+
+Theorem svcb_value_len_covers_value_pack :
+  forall (v : svcbval) (b : bytes), svcb_pack v = Ok b -> lenN b <= svcb_len v.
+Proof. exact svcb_len_ge_pack. Qed.
+Print Assumptions svcb_value_len_covers_value_pack.
+
+Theorem svcb_value_len_is_exact :
+  forall (v : svcbval) (b : bytes), svcb_pack v = Ok b -> svcb_len v = lenN b.
+Proof. exact svcb_len_eq_pack. Qed.
+Print Assumptions svcb_value_len_is_exact.
+
+(* records built from values whose pack() succeeds need no hypothesis ... *)
+Theorem opt_record_of_values_is_ok :
+  forall (h : rr) (vs : list optval) (ts : list (N * bytes * N)),
+    opt_triples vs = Ok ts -> rr_okb (opt_record h ts) = true.
+Proof. exact opt_record_okb. Qed.
+Print Assumptions opt_record_of_values_is_ok.
+
+Theorem svcb_record_of_values_is_ok :
+  forall (h : rr) (priority : N) (target : bytes) (vs : list svcbval) (ts : list (N * bytes * N)),
+    svcb_triples vs = Ok ts -> rr_okb (svcb_record h priority target ts) = true.
+Proof. exact svcb_record_okb. Qed.
+Print Assumptions svcb_record_of_values_is_ok.
+
+(* ... so Len(rr) >= |packRR| for them, in any state, with any buffer *)
+Theorem opt_record_len_never_underestimates :
+  forall (h : rr) (vs : list optval) (ts : list (N * bytes * N)) (cap : N) (compress : bool) (st st' : pn_state),
+    opt_triples vs = Ok ts -> pack_rr (opt_record h ts) cap compress st = Ok st' ->
+    lenN (pn_out st') - lenN (pn_out st) <= rr_len (opt_record h ts).
+Proof. exact opt_record_len_ge_pack. Qed.
+Print Assumptions opt_record_len_never_underestimates.
+
+Theorem svcb_record_len_never_underestimates :
+  forall (h : rr) (priority : N) (target : bytes) (vs : list svcbval) (ts : list (N * bytes * N))
+         (cap : N) (compress : bool) (st st' : pn_state),
+    svcb_triples vs = Ok ts -> pack_rr (svcb_record h priority target ts) cap compress st = Ok st' ->
+    lenN (pn_out st') - lenN (pn_out st) <= rr_len (svcb_record h priority target ts).
+Proof. exact svcb_record_len_ge_pack. Qed.
+Print Assumptions svcb_record_len_never_underestimates.
